@@ -235,6 +235,9 @@ func RunTLC(o TLCOpts) (*TLCResult, error) {
 	werr := cmd.Wait()
 	res.WallS = time.Since(t0).Seconds()
 	res.Output = keep.String()
+	if os.Getenv("VERIF_DEBUG") != "" {
+		fmt.Printf("timing: tlc %s %s %.1fs (%d cases)\n", o.Module, o.Config, res.WallS, len(res.Cases)+len(res.Edges))
+	}
 	if time.Since(t0) >= o.Timeout {
 		return res, fmt.Errorf("TLC timed out after %v (%s %s)", o.Timeout, o.Module, o.Config)
 	}
